@@ -176,7 +176,7 @@ func checkC17(c *Ctx) {
 		flist = append(flist, fmt.Sprintf("%q", f))
 	}
 	sort.Strings(flist)
-	consts := fmt.Sprintf("CONSTANTS\n  Types = {1,2,3,4,5,6,7,8,9,10,11,12,13,14,15,16,17,18,19,20,21,22,23,24,25}\n  Files = {%s}\n  Rules = {\"alpha/one.lua\",\"tests/\",\"beta/th.*lua\",\"alpha/\"}\n  Level = %q\n", strings.Join(flist, ","), c.Tier)
+	consts := fmt.Sprintf("CONSTANTS\n  Types = {1,2,3,4,5,6,7,8,9,10,11,12,13,14,15,16,17,18,19,20,21,22,23,24,25}\n  Files = {%s}\n  Rules = {\"alpha/one.lua\",\"tests/\",\"beta/th.*lua\",\"alpha/\",\"c++/\"}\n  Level = %q\n", strings.Join(flist, ","), c.Tier)
 	if !c.streamRun("configs", tlc.Run{Module: "Config", Workers: 4, Timeout: 20 * time.Minute,
 		Cfg: consts + "INIT Init\nNEXT Next\nINVARIANTS Homomorphic Monotone Emit\nCHECK_DEADLOCK FALSE\n"}, p, 4, build, judge) {
 		return
